@@ -64,7 +64,12 @@ struct ClmRoundtrip : Family {
 			names.push_back(nm);
 			Line w = mkline("world", "wav");
 			uint64_t len;
-			switch (r.below(8)) { case 0: len = 0; break; case 1: len = r.chance(1, 3) && !many ? boundarySize(r, 14) : 1 + r.below(4); break; case 2: len = (!big || thorough) && !many && r.chance(1, 3) ? 131071 + r.below(3) : r.below(5000); break; default: len = r.below(many ? 200 : 5000); break; }
+			switch (r.below(8)) { case 0: len = 0; break; case 1:
+				// boundary lengths of the audio data, and lengths that put the EXTRACTED file (46-byte header + data) or the canonical
+				// 44-byte-header file on a boundary
+				if (r.chance(1, 2) && !many) { len = boundarySize(r, thorough ? 16 : 15); uint64_t h = r.chance(1, 2) ? 0 : r.chance(2, 3) ? 46 : 44; if (len > h) len -= h; }
+				else len = 1 + r.below(4);
+				break; case 2: len = (!big || thorough) && !many && r.chance(1, 3) ? 131071 + r.below(3) : r.below(5000); break; default: len = r.below(many ? 200 : 5000); break; }
 			if (len > 100000) big = true;
 			static const char* EXT[] = {".wav", ".WAV", ".Wav", ".wAV"};
 			static const char* ODD[] = {".wave", ".w", "-", ".snd", ".WAVE"}; // "-" = no extension at all
